@@ -470,8 +470,9 @@ func vReloadRun(out *vOut, rng *vRand) {
 			prov.closeFails[j] = rng.Intn(3) == 0
 		}
 	}
-	// how the collector is asked to stop: Shutdown(), cancelled Run context, asynchronous error
-	stopHow := rng.Intn(3)
+	// how Run's control loop is left: 0 Shutdown(), 1 cancelled Run context, 2 asynchronous error,
+	// 3 the configuration provider reports a WATCH ERROR (ChangeEvent{Error}), 4 a termination signal
+	stopHow := rng.Intn(5)
 	sighup := rng.Bool() // reload trigger: SIGHUP or a config-watch event
 	runCtx, runCancel := context.WithCancel(context.Background())
 	defer runCancel()
@@ -554,8 +555,15 @@ func vReloadRun(out *vOut, rng *vRand) {
 						col.Shutdown()
 					case 1:
 						runCancel()
-					default:
+					case 2:
 						go func() { col.asyncErrorChannel <- fmt.Errorf("asynchronous error") }()
+					case 3:
+						prov.mu.Lock()
+						wf := prov.watcher
+						prov.mu.Unlock()
+						go wf(&confmap.ChangeEvent{Error: fmt.Errorf("watching the configuration failed")})
+					default:
+						go func() { col.signalsChannel <- syscall.SIGTERM }()
 					}
 				}
 			}
@@ -589,8 +597,12 @@ func vReloadRun(out *vOut, rng *vRand) {
 		if prov.closeFails[j] {
 			c.iStart = []int{1} // L[16]: this generation's close function fails
 		}
-		if j == 0 && prov.provFails {
-			c.iStop = []int{1} // L[17] of generation 0: the provider's Shutdown fails
+		if j == 0 {
+			// L[17] of generation 0: [the provider's Shutdown fails; how Run's loop is left]
+			c.iStop = []int{0, stopHow}
+			if prov.provFails {
+				c.iStop[0] = 1
+			}
 		}
 		cases = append(cases, c)
 		if nc == 0 && len(log) == 0 {
